@@ -74,7 +74,7 @@ SHARDS = {'quick': 16, 'thorough': 16}
 BUDGET_S = {'quick': 170, 'thorough': 2400}
 
 TOL = 1e-9
-CPU_LIMIT_S = 120.0   # per pass run; the slowest legitimate case is ~5 s
+CPU_LIMIT_S = 120.0   # per pass run; slower runs are abandoned as inconclusive
 PARTITIONERS = [
     'QuickPartitioner', 'ScanPartitioner', 'ClusteringPartitioner',
     'GreedyPartitioner', 'GroupSingleQuditGatePass', 'QuickExtend',
@@ -590,11 +590,9 @@ def check(case) -> Outcome:
         except core.HarnessError:
             raise
         except _Timeout:
-            out.fail(
-                f'timeout|{stage}',
-                f'no result after {CPU_LIMIT_S:.0f} s of CPU time; n={n} '
-                f'bs={bs} ops={len(ops)}',
-            )
+            # a time limit is never a verdict: ScanPartitioner(6) on 19
+            # qudits / 296 operations legitimately needs ~6 min of CPU
+            out.label(f'inconclusive:cpu-time-limit|{stage}')
             return out
         except Exception as e:
             if reject and isinstance(e, REJECT_TYPE[name]):
